@@ -22,6 +22,8 @@ from .. import (
     UnionType,
     is_introspection_type,
 )
+from ...lang import print_ast
+from ...utilities.ast_node_from_value import ast_node_from_value
 from .changes import (
     DirectiveAdded,
     DirectiveArgumentAdded,
@@ -60,6 +62,22 @@ from .changes import (
     TypeRemovedFromInterface,
     TypeRemovedFromUnion,
 )
+
+
+def _default_value_differs(old_value, new_value) -> bool:
+    # Default values are compared the way clients see them (as GraphQL
+    # literals): internal representations such as enum values or Python names
+    # of input fields are not part of the schema's interface.
+    if old_value.default_value == new_value.default_value:
+        return False
+    try:
+        return print_ast(
+            ast_node_from_value(old_value.default_value, old_value.type)
+        ) != print_ast(
+            ast_node_from_value(new_value.default_value, new_value.type)
+        )
+    except Exception:
+        return True
 
 
 TGraphQLType = TypeVar("TGraphQLType", bound=GraphQLType)
@@ -284,7 +302,7 @@ def _diff_directive_arguments(
                 or (not old_arg.has_default_value and new_arg.has_default_value)
                 or (
                     old_arg.has_default_value
-                    and old_arg.default_value != new_arg.default_value
+                    and _default_value_differs(old_arg, new_arg)
                 )
             ):
                 yield DirectiveArgumentDefaultValueChange(
@@ -318,7 +336,7 @@ def _diff_field_arguments(
                 or (not old_arg.has_default_value and new_arg.has_default_value)
                 or (
                     old_arg.has_default_value
-                    and old_arg.default_value != new_arg.default_value
+                    and _default_value_differs(old_arg, new_arg)
                 )
             ):
                 yield FieldArgumentDefaultValueChange(
@@ -470,7 +488,7 @@ def _diff_input_types(old: Schema, new: Schema) -> Iterator[SchemaChange]:
                     )
                     or (
                         old_field.has_default_value
-                        and old_field.default_value != new_field.default_value
+                        and _default_value_differs(old_field, new_field)
                     )
                 ):
                     yield InputFieldDefaultValueChange(
